@@ -130,6 +130,42 @@ def rename_variants(facts):
     return [(a, n, o) for (a, n), o in sorted(ren.items())]
 
 
+def rename_traits(facts, known):
+    """A trait of the crate that is gone (no impl and no provided method of it is left) while exactly one new trait is
+    implemented for the same set of types is that trait under a new name: its path is replaced by the reference path
+    everywhere.  (Its methods, if renamed too, are matched afterwards like any other renamed function.)"""
+    import re
+
+    def impls(keys):
+        out = {}
+        for k in keys:
+            m = re.match(r"^<(.+) as ([^<>]+)>::[A-Za-z_0-9]+$", k)
+            if m and not m.group(2).startswith(("std::", "core::", "alloc::")):
+                out.setdefault(m.group(2), set()).add(m.group(1))
+        return out
+    now_keys = {j["key"] for j in facts["bodies"]}
+    ref, now = impls(known), impls(now_keys)
+    gone = {t: ts for t, ts in ref.items() if t not in now}
+    came = {t: ts for t, ts in now.items() if t not in ref}
+    pairs = []
+    used = set()
+    for t, ts in sorted(gone.items()):
+        cands = [n for n, ns in came.items() if ns == ts and n not in used and n.rsplit("::", 1)[0] == t.rsplit("::", 1)[0]] or \
+                [n for n, ns in came.items() if ns == ts and n not in used]
+        if len(cands) == 1:
+            pairs.append((cands[0], t))
+            used.add(cands[0])
+    if not pairs:
+        return []
+    text = json.dumps(facts)
+    for n, m in sorted(pairs, key=lambda p: -len(p[0])):
+        text = re.sub(r"(?<![A-Za-z0-9_])" + re.escape(n) + r"(?![A-Za-z0-9_])", m, text)
+    fresh = json.loads(text)
+    facts.clear()
+    facts.update(fresh)
+    return pairs
+
+
 KNOWN_ITEMS = os.path.join(HERE, "known_items.json")
 
 
@@ -144,6 +180,9 @@ def rename_items(facts):
         return []
     now = {("static", x["path"]) for x in facts["statics"]} | {("const", x["path"]) for x in facts["consts"]}
     ref = {(x["kind"], x["path"]) for x in known}
+    ref_ty = {(x["kind"], x["path"]): x.get("ty") for x in known}
+    now_ty = {("static", x["path"]): x.get("ty") for x in facts["statics"]}
+    now_ty.update({("const", x["path"]): x.get("ty") for x in facts["consts"]})
     missing = sorted(ref - now)
     new = sorted(now - ref)
     pairs = []
@@ -152,6 +191,14 @@ def rename_items(facts):
         if m.startswith("<"):
             continue     # associated constants follow their type
         cands = [n for k, n in new if k == kind and n.rsplit("::", 1)[-1] == m.rsplit("::", 1)[-1] and n not in used and not n.startswith("<")]
+        if not cands:
+            # renamed in place: the only new item of that kind and type in the same module, while the only one missing there
+            mod_ = m.rsplit("::", 1)[0]
+            ty_m = ref_ty.get((kind, m))
+            same_mod_new = [n for k, n in new if k == kind and n.rsplit("::", 1)[0] == mod_ and now_ty.get((k, n)) == ty_m and n not in used and not n.startswith("<")]
+            same_mod_missing = [x for k, x in missing if k == kind and x.rsplit("::", 1)[0] == mod_ and ref_ty.get((k, x)) == ty_m]
+            if len(same_mod_new) == 1 and len(same_mod_missing) == 1 and ty_m is not None:
+                cands = same_mod_new
         if len(cands) == 1:
             pairs.append((cands[0], m))
             used.add(cands[0])
@@ -265,8 +312,17 @@ def rename_anchors(facts, known):
     if not isinstance(known, dict):
         return []
     present = {j["key"]: j for j in facts["bodies"] if j["kind"] == "fn"}
-    missing = [k for k in known if k not in present and not k.startswith("<") and "::<impl " not in k]
-    new = [k for k in present if k not in known and not k.startswith("<") and "::<impl " not in k]
+    def plain(k):
+        # free functions, inherent methods, and methods of the crate's own traits (a trait method renamed in the trait and
+        # in every impl); impls of std traits keep their method names by definition
+        if "::<impl " in k:
+            return False
+        if k.startswith("<"):
+            iid = _impl_id(k)
+            return iid is not None and not iid[0].startswith(("std::", "core::", "alloc::"))
+        return True
+    missing = [k for k in known if k not in present and plain(k)]
+    new = [k for k in present if k not in known and plain(k)]
     # trait impls moved to another module keep their identity (trait, type, method) but are spelt differently by rustc:
     # `<Type as Trait>::m` next to the type, `module::<impl Trait for Type>::m` elsewhere
     impl_pairs = []
@@ -894,7 +950,7 @@ def _tested(j, dest):
     return False
 
 
-ACCESSOR_TRAITS = ("std::ops::Index", "std::ops::Deref", "std::convert::From", "std::convert::AsRef", "std::convert::AsMut", "std::borrow::Borrow", "std::iter::Iterator", "std::iter::IntoIterator",
+ACCESSOR_TRAITS = ("std::ops::Index", "std::ops::Deref", "std::convert::From", "std::convert::TryFrom", "std::convert::AsRef", "std::convert::AsMut", "std::borrow::Borrow", "std::iter::Iterator", "std::iter::IntoIterator",
                    "std::default::Default", "std::str::FromStr")
 
 
@@ -1031,6 +1087,7 @@ def apply(facts, known=None):
     facts["renamed_types"] = [{"now": n, "anchor": m} for n, m in rename_types(facts)]
     facts["renamed_variants"] = [{"adt": a, "now": n, "anchor": o} for a, n, o in rename_variants(facts)]
     facts["renamed_items"] = [{"now": n, "anchor": m} for n, m in rename_items(facts)]
+    facts["renamed_traits"] = [{"now": n, "anchor": m} for n, m in rename_traits(facts, known)]
     facts["renamed"] = []
     for _round in range(4):
         pairs = rename_anchors(facts, known)
